@@ -116,16 +116,28 @@ def export(t, case, d):
         sio = io.StringIO()
         t.to_tsv(direct_io=sio, **kw)
         return sio.getvalue()
-    from biom.cli.table_converter import _convert
+    # the real `biom convert --to-tsv` command on a JSON file of the table
+    from biom.cli.table_converter import convert
+    src = os.path.join(d, "export-src.biom")
+    with open(src, "w", encoding="utf8") as f:
+        f.write(t.to_json("vf"))
     out = os.path.join(d, "exported.tsv")
-    ckw = {}
+    args = ["-i", src, "-o", out, "--to-tsv"]
     if md != "none":
-        ckw = {"header_key": "tax", "output_metadata_id": col,
-               "tsv_metadata_formatter": "sc_separated" if md == "taxonomy"
-               else "naive"}
-    _convert(t.copy(), out, to_tsv=True, **ckw)
+        args += ["--header-key", "tax", "--output-metadata-id", col,
+                 "--tsv-metadata-formatter",
+                 "sc_separated" if md == "taxonomy" else "naive"]
+    run_click(convert, args)
     with open(out, encoding="utf8") as f:
         return f.read()
+
+
+def run_click(cmd, args):
+    try:
+        cmd.main(args, standalone_mode=False)
+    except SystemExit as e:
+        if e.code not in (0, None):
+            raise Violation("cli-exit", "%s exited %r" % (args, e.code))
 
 
 def importer(text, case, d):
@@ -164,14 +176,14 @@ def importer(text, case, d):
                             for i in t.ids(axis="observation")},
                            axis="observation")
         return t, how
-    from biom.cli.table_converter import _convert
+    from biom.cli.table_converter import convert
     out = os.path.join(d, "out.biom")
-    kw = {}
+    args = ["-i", p, "-o", out,
+            "--to-json" if how == "convert_json" else "--to-hdf5"]
     if md != "none":
-        kw["process_obs_metadata"] = "taxonomy" if md == "taxonomy" \
-            else "naive"
-    _convert(load_table(p), out, to_json=(how == "convert_json"),
-             to_hdf5=(how == "convert_hdf5"), **kw)
+        args += ["--process-obs-metadata",
+                 "taxonomy" if md == "taxonomy" else "naive"]
+    run_click(convert, args)
     return load_table(out), how
 
 
